@@ -8,6 +8,7 @@ use vharness::*;
 mod fe_damage;
 mod fe_grammar;
 mod fe_lexer;
+mod fe_session;
 mod fe_static;
 
 fn main() {
@@ -36,6 +37,19 @@ fn main() {
         "lexer" => run_cases(cases, max_fail, fe_lexer::lexer_case),
         "lexinc" => fe_lexer::run_lexinc(cases, max_fail, &opts),
         "lexchain" => run_cases(cases, max_fail, fe_lexer::lexchain_case),
+        "session" => {
+            let stride: usize = opts.get("estride").and_then(|s| s.parse().ok()).unwrap_or(1);
+            let seed: u64 = opts.get("seed").and_then(|s| s.parse().ok()).unwrap_or(1);
+            run_cases(cases, max_fail, move |_t, c| fe_session::session_case(c, stride, seed))
+        }
+        "session2" => {
+            let stride: usize = opts.get("estride").and_then(|s| s.parse().ok()).unwrap_or(1);
+            let dstride: usize = opts.get("dstride").and_then(|s| s.parse().ok()).unwrap_or(1);
+            let seed: u64 = opts.get("seed").and_then(|s| s.parse().ok()).unwrap_or(1);
+            run_cases(cases, max_fail, move |_t, c| fe_session::session2_case(c, stride, seed, dstride))
+        }
+        "soup" => fe_session::run_soup(cases, max_fail),
+        "history" => run_cases(cases, max_fail, |_t, c| fe_session::history_case(c)),
         "static" => {
             let layouts: Vec<String> = opts
                 .get("layouts")
